@@ -81,6 +81,11 @@ def generate(seed, mode="c07", opts=None):
         else:
             nm = f"late{len(script)}"
         script.append(["expect_raise", ["sig", m, nm, 1, "i", "n"]])
+        insts_ = sorted(n_ for n_, i_ in mm.insts.items() if i_["kind"] == "inst")
+        sigs_ = sorted(n_ for n_, (w_, _v, _d) in mm.sigs.items() if w_ == 1)
+        if insts_ and sigs_ and ch.chance(1, 2):
+            # ... and a connection made on one of its instances, to a port name not connected so far
+            script.append(["expect_raise", ["conn", m, ch.pick(insts_, "lateinst"), f"latep{len(script)}", ["s", ch.pick(sigs_, "latesig")], "connect"]])
     for _ in range(ch.rint(1, 3, "nfinal")):
         script.append(gen_call(ch, ended, netlistable))
     scn = {
@@ -515,6 +520,17 @@ def run(scn):
     # which an earlier failed call left partially elaborated.  Neither C07 (fully elaborated
     # modules refuse additions) nor C08 defines what such an edit means.
     for k, op in enumerate(ops):
+        if op[0] == "expect_raise" and op[1][0] == "conn" and outcomes[k] is not None and not outcomes[k]["raised"]:
+            # a connection edit that was accepted: by a module some call had completely elaborated
+            # (it refuses additions: C07), or by one that no call had finished (no statement: discard)
+            plain = [o_ if o_[0] != "expect_raise" else ["gc"] for o_ in ops]
+            if _fully_elaborated(plain, outcomes, k, op[1][1], None):
+                res["findings"].append({"prop": "C07", "clause": "freeze", "detail": [f"a connection to a new port name on an instance of elaborated module {op[1][1]} was accepted"], "at": k})
+                res["nontrivial"] = True
+                res["sig"] = hash64(str(scn["ops"]))
+                return res
+            res["discard"] = "late connection accepted by a module no call had elaborated completely (outside the model)"
+            return res
         if op[0] == "expect_raise" and outcomes[k] is not None and not outcomes[k]["raised"] and not str(op[1][2]).startswith("late"):
             res["discard"] = "an edit re-using a name was accepted by a module no call had elaborated (outside the model)"
             return res
